@@ -257,13 +257,15 @@ class BipartiteGraph:
             return None
 
         if self.E > 0:
-            win_edges = valid[self.edges[:, 0]]
+            # boolean mask of the retained edges (valid may hold 0/1 integers,
+            # labels or floats: a vertex is retained when valid > 0)
+            win_edges = valid[self.edges[:, 0]] > 0
             edges = self.edges[win_edges]
             weights = self.weights[win_edges]
             if renumb:
                 rindex = np.hstack((0, np.cumsum(valid > 0)))
                 edges[:, 0] = rindex[edges[:, 0]]
-                G = BipartiteGraph(np.sum(valid), self.W, edges, weights)
+                G = BipartiteGraph(np.sum(valid > 0), self.W, edges, weights)
             else:
                 G = BipartiteGraph(self.V, self.W, edges, weights)
 
@@ -295,13 +297,15 @@ class BipartiteGraph:
             return None
 
         if self.E > 0:
-            win_edges = valid[self.edges[:, 1]]
+            # boolean mask of the retained edges (valid may hold 0/1 integers,
+            # labels or floats: a vertex is retained when valid > 0)
+            win_edges = valid[self.edges[:, 1]] > 0
             edges = self.edges[win_edges]
             weights = self.weights[win_edges]
             if renumb:
                 rindex = np.hstack((0, np.cumsum(valid > 0)))
                 edges[:, 1] = rindex[edges[:, 1]]
-                G = BipartiteGraph(self.V, np.sum(valid), edges, weights)
+                G = BipartiteGraph(self.V, np.sum(valid > 0), edges, weights)
             else:
                 G = BipartiteGraph(self.V, self.W, edges, weights)
 
